@@ -198,6 +198,7 @@ func main() {
 	replayPath := flag.String("replay", "", "replay a recorded violation natively and exit")
 	noReplay := flag.Bool("no-replay", false, "skip native replays (debug)")
 	verbose := flag.Bool("v", false, "verbose")
+	crossSolver := flag.String("solver", "", "cross-check: decide with this back end instead of z3 5.1 (z3old = z3 4.8.12, cvc5)")
 	flag.Parse()
 	if v := os.Getenv("VERIF_REPO"); v != "" {
 		repo = v
@@ -319,7 +320,11 @@ func main() {
 				cfg.InputLen = in.params[g.InputLenP]
 			}
 			kind := sym.Z3New
-			switch g.Solver {
+			solverName := g.Solver
+			if *crossSolver != "" && solverName != "cvc5int" {
+				solverName = *crossSolver // cross-check run: every group that does not need the integer encoding uses this back end
+			}
+			switch solverName {
 			case "z3old":
 				kind = sym.Z3Old
 			case "cvc5":
@@ -753,7 +758,7 @@ func main() {
 		"queries":                       map[string]any{"sat": stats.Sat, "unsat": stats.Unsat, "unknown": stats.Unknown, "error": stats.Errors, "solver_restarts": stats.Restarts},
 		"solver_time_s":                 stats.Time.Seconds(),
 		"max_query_s":                   stats.MaxQuery.Seconds(),
-		"solver":                        "z3 5.1.0 (z3-new -in), one process per harness instance",
+		"solver":                        solverLabel(*crossSolver),
 		"stubs_and_models":              stubList,
 		"if_converted_regions":          ifconv,
 		"unwind_hits":                   unwindHits,
@@ -1120,4 +1125,14 @@ func replayOne(path string) int {
 	}
 	fmt.Println("does not reproduce on the current tree")
 	return 0
+}
+
+func solverLabel(cross string) string {
+	switch cross {
+	case "z3old":
+		return "CROSS-CHECK RUN with z3 4.8.12 (z3 -in), one process per harness instance"
+	case "cvc5":
+		return "CROSS-CHECK RUN with cvc5 1.0.x (--incremental), one process per harness instance"
+	}
+	return "z3 5.1.0 (z3-new -in), one process per harness instance; groups marked cvc5int use cvc5 --solve-bv-as-int=sum"
 }
